@@ -40,8 +40,9 @@ ArchNames == { "b64", "b32", "x86_64", "i386", "aarch64", "arm", "ppc", "ppc64",
                "mips", "mipsel", "mips64", "mipsel64", "ia64", "armeb", "sparc", "sparc64", "m68k", "parisc", "parisc64", "loongarch64" }
 
 VClasses(f) ==
-    IF f \in UidFields THEN { "zero", "small", "max31", "high", "unset", "minus1", "name_root", "overflow" }
-    ELSE IF f \in GidFields THEN { "zero", "small", "max31", "high", "unset", "minus1", "name_root", "overflow" }
+    \* name_both: a name that is a user and a group with different ids on this machine (root when there is none)
+    IF f \in UidFields THEN { "zero", "small", "max31", "high", "unset", "minus1", "name_root", "name_both", "overflow" }
+    ELSE IF f \in GidFields THEN { "zero", "small", "max31", "high", "unset", "minus1", "name_root", "name_both", "overflow" }
     ELSE IF f \in StrFields THEN { "short", "long", "max", "special", "utf8" }
     ELSE IF f = "saddr_fam" THEN { "two", "ten" }
     ELSE IF f \in NumFields THEN { "zero", "one", "dec", "hex", "neg", "max", "overflow" }
